@@ -88,6 +88,16 @@ VARIANTS = [
     {"name": "P R1 handler logs the hook's args lazily", "file": ADDONS, "expect": "silent",
      "old": "            logging.exception(\"Exploded in %r's %s hook\" % (addon, hook_name))\n",
      "new": "            logging.exception(\"Exploded in %r's %s hook, args: %r\", addon, hook_name, args)\n"},
+    {"name": "R1 entry point asks the reload check to raise load errors", "file": ADDONS, "expect": "C07.R1",
+     "old": "        cls._reload_addons()\n        with addon_ctx.push(session, region):\n"
+            "            return cls._call_all_addon_hooks(\"handle_eq_event\"",
+     "new": "        cls._reload_addons(raise_exceptions=True)\n        with addon_ctx.push(session, region):\n"
+            "            return cls._call_all_addon_hooks(\"handle_eq_event\""},
+    {"name": "P R1 entry point passes raise_exceptions=False explicitly", "file": ADDONS, "expect": "silent",
+     "old": "        cls._reload_addons()\n        with addon_ctx.push(session, region):\n"
+            "            return cls._call_all_addon_hooks(\"handle_eq_event\"",
+     "new": "        cls._reload_addons(raise_exceptions=False)\n        with addon_ctx.push(session, region):\n"
+            "            return cls._call_all_addon_hooks(\"handle_eq_event\""},
     {"name": "P R1 bare except -> except BaseException", "file": ADDONS, "expect": "silent",
      "old": _HOOK_TAIL, "new": _HOOK_TAIL.replace("        except:\n", "        except BaseException:\n")},
     {"name": "P R1 rename hook_func local", "expect": "silent",
